@@ -42,11 +42,20 @@ func isHandledSelectStmt(l *lexer, keyspace Identifier) (handled bool, stmt Stat
 	}
 
 	qualifyingKeyspace, table, t, err := parseQualifiedIdentifier(l)
-	if err != nil || (!keyspace.equal("system") && !qualifyingKeyspace.equal("system")) || !isSystemTable(table) {
+	if err != nil {
 		return false, nil, err
 	}
 
-	selectStmt := &SelectStatement{Keyspace: "system", Table: table.id}
+	// An unqualified table resolves against the connection's current keyspace; a qualifier always wins.
+	tableKeyspace := qualifyingKeyspace
+	if tableKeyspace.isEmpty() {
+		tableKeyspace = keyspace
+	}
+	if !tableKeyspace.equal("system") || !isSystemTable(table) {
+		return false, nil, nil
+	}
+
+	selectStmt := &SelectStatement{Keyspace: "system", Table: table.ID()}
 
 	// This only parses the selectors if this is a query handled by the proxy
 
